@@ -291,6 +291,13 @@ fn slicing_body(mode: u8) {
         // the maximum-speed loop re-enters the frame loop after every frame: with 3 instructions the query needed > 20 GB, 2 are kept
         SCRIPT_LIMIT = if mode == 2 { 3 } else { 4 };
     }
+    // CPU control state the scripted instructions never touch: whatever the slicing, only instructions
+    // may change it (a call boundary right after EI must not lose the one-instruction interrupt delay)
+    let (h0, s0, i1, i2): (bool, bool, bool, bool) = (kani::any(), kani::any(), kani::any(), kani::any());
+    e.cpu.halted = h0;
+    e.cpu.skip_interrupt = s0;
+    e.cpu.regs.set_iff1(i1);
+    e.cpu.regs.set_iff2(i2);
     let limit = Duration::from_millis(kani::any::<u16>() as u64);
     let mut frames_seen = 0usize;
     let mut stopped_at_frame_end = true;
@@ -346,6 +353,10 @@ fn slicing_body(mode: u8) {
     }
     let k = unsafe { SCRIPT_POS };
     let total = t0 + script_sum(k);
+    kani::assert(
+        e.cpu.halted == h0 && e.cpu.skip_interrupt == s0 && e.cpu.regs.get_iff1() == i1 && e.cpu.regs.get_iff2() == i2,
+        "c16.slice.call_boundaries_leave_cpu_control_state_alone",
+    );
     kani::assert(e.controller.frame_clocks == total % f, "c16.slice.clock_is_function_of_executed_instructions");
     kani::assert(frames_seen == total / f, "c16.slice.frame_ends_counted_exactly");
     if mode != 2 && stopped_at_frame_end {
@@ -368,7 +379,7 @@ fn slicing_body(mode: u8) {
 // @timeout 900
 // @fn Emulator::emulate_frames (FrameCount(n), Max, breakpoint stop and resume); Emulator::set_speed; Emulator::set_debug_interface; ZXController::pc_callback; ZXController::wait_internal; ZXController::reset_frame_counter; ZXController::take_events
 // @sym machine, start frame time, a program of 4 instruction lengths (1..frame-1 T each) and end PCs, host slicing: 2 frames in one call, stopwatch readings
-// @assert whatever the slicing, after the host has driven the machine the emulated time is a function of the instructions executed only: clock == (start + sum of executed lengths) mod frame, frame ends counted == (start + sum) div frame; FrameCount(2) in one call and FrameCount(1) twice stop after the same instruction (the first that completes the second frame); a breakpoint stop loses nothing and the resume continues with the next instruction; max-speed mode stops only at a frame end
+// @assert whatever the slicing, after the host has driven the machine the emulated time is a function of the instructions executed only: clock == (start + sum of executed lengths) mod frame, frame ends counted == (start + sum) div frame; FrameCount(2) in one call and FrameCount(1) twice stop after the same instruction (the first that completes the second frame); a breakpoint stop loses nothing and the resume continues with the next instruction; max-speed mode stops only at a frame end; HALT state, the pending one-instruction interrupt delay (EI / prefix chain) and IFF1/IFF2 are never changed by the host loop itself, only by instructions
 // @bound 4 abstract instructions per query (paths needing more are cut by an assume), <= 2 frames
 // @stub Z80::emulate -> scripted step (length and PC from the symbolic program); ZXScreen::process_clocks -> no-op
 // @replay solver-only
@@ -386,7 +397,7 @@ fn c16_slicing_two_frames_per_call() {
 // @timeout 900
 // @fn Emulator::emulate_frames (FrameCount(n), Max, breakpoint stop and resume); Emulator::set_speed; Emulator::set_debug_interface; ZXController::pc_callback; ZXController::wait_internal; ZXController::reset_frame_counter; ZXController::take_events
 // @sym machine, start frame time, a program of 4 instruction lengths (1..frame-1 T each) and end PCs, host slicing: 1 frame per call, twice, stopwatch readings
-// @assert whatever the slicing, after the host has driven the machine the emulated time is a function of the instructions executed only: clock == (start + sum of executed lengths) mod frame, frame ends counted == (start + sum) div frame; FrameCount(2) in one call and FrameCount(1) twice stop after the same instruction (the first that completes the second frame); a breakpoint stop loses nothing and the resume continues with the next instruction; max-speed mode stops only at a frame end
+// @assert whatever the slicing, after the host has driven the machine the emulated time is a function of the instructions executed only: clock == (start + sum of executed lengths) mod frame, frame ends counted == (start + sum) div frame; FrameCount(2) in one call and FrameCount(1) twice stop after the same instruction (the first that completes the second frame); a breakpoint stop loses nothing and the resume continues with the next instruction; max-speed mode stops only at a frame end; HALT state, the pending one-instruction interrupt delay (EI / prefix chain) and IFF1/IFF2 are never changed by the host loop itself, only by instructions
 // @bound 4 abstract instructions per query (paths needing more are cut by an assume), <= 2 frames
 // @stub Z80::emulate -> scripted step (length and PC from the symbolic program); ZXScreen::process_clocks -> no-op
 // @replay solver-only
@@ -404,7 +415,7 @@ fn c16_slicing_frame_by_frame() {
 // @timeout 3000
 // @fn Emulator::emulate_frames (FrameCount(n), Max, breakpoint stop and resume); Emulator::set_speed; Emulator::set_debug_interface; ZXController::pc_callback; ZXController::wait_internal; ZXController::reset_frame_counter; ZXController::take_events
 // @sym machine, start frame time, a program of 4 instruction lengths (1..frame-1 T each) and end PCs, host slicing: maximum-speed mode with arbitrary stopwatch readings and time limit, stopwatch readings
-// @assert whatever the slicing, after the host has driven the machine the emulated time is a function of the instructions executed only: clock == (start + sum of executed lengths) mod frame, frame ends counted == (start + sum) div frame; FrameCount(2) in one call and FrameCount(1) twice stop after the same instruction (the first that completes the second frame); a breakpoint stop loses nothing and the resume continues with the next instruction; max-speed mode stops only at a frame end
+// @assert whatever the slicing, after the host has driven the machine the emulated time is a function of the instructions executed only: clock == (start + sum of executed lengths) mod frame, frame ends counted == (start + sum) div frame; FrameCount(2) in one call and FrameCount(1) twice stop after the same instruction (the first that completes the second frame); a breakpoint stop loses nothing and the resume continues with the next instruction; max-speed mode stops only at a frame end; HALT state, the pending one-instruction interrupt delay (EI / prefix chain) and IFF1/IFF2 are never changed by the host loop itself, only by instructions
 // @bound 4 abstract instructions per query (paths needing more are cut by an assume), <= 2 frames
 // @stub Z80::emulate -> scripted step (length and PC from the symbolic program); ZXScreen::process_clocks -> no-op
 // @replay solver-only
@@ -422,7 +433,7 @@ fn c16_slicing_max_speed_mode() {
 // @timeout 900
 // @fn Emulator::emulate_frames (FrameCount(n), Max, breakpoint stop and resume); Emulator::set_speed; Emulator::set_debug_interface; ZXController::pc_callback; ZXController::wait_internal; ZXController::reset_frame_counter; ZXController::take_events
 // @sym machine, start frame time, a program of 4 instruction lengths (1..frame-1 T each) and end PCs, host slicing: 2 frames with a breakpoint that may hit after any instruction, then resume, stopwatch readings
-// @assert whatever the slicing, after the host has driven the machine the emulated time is a function of the instructions executed only: clock == (start + sum of executed lengths) mod frame, frame ends counted == (start + sum) div frame; FrameCount(2) in one call and FrameCount(1) twice stop after the same instruction (the first that completes the second frame); a breakpoint stop loses nothing and the resume continues with the next instruction; max-speed mode stops only at a frame end
+// @assert whatever the slicing, after the host has driven the machine the emulated time is a function of the instructions executed only: clock == (start + sum of executed lengths) mod frame, frame ends counted == (start + sum) div frame; FrameCount(2) in one call and FrameCount(1) twice stop after the same instruction (the first that completes the second frame); a breakpoint stop loses nothing and the resume continues with the next instruction; max-speed mode stops only at a frame end; HALT state, the pending one-instruction interrupt delay (EI / prefix chain) and IFF1/IFF2 are never changed by the host loop itself, only by instructions
 // @bound 4 abstract instructions per query (paths needing more are cut by an assume), <= 2 frames
 // @stub Z80::emulate -> scripted step (length and PC from the symbolic program); ZXScreen::process_clocks -> no-op
 // @replay solver-only
